@@ -20,9 +20,11 @@ def sh(cmd, **kw):
 
 def main():
     sid = sys.argv[1]
+    tier = 'thorough' if '--thorough' in sys.argv else 'quick'
+    args = [a for a in sys.argv[2:] if not a.startswith('--')]
     d = os.path.join(HERE, 'seeded', sid)
     meta = json.load(open(os.path.join(d, 'meta.json')))
-    props = sys.argv[2:] or meta.get('check_with') or [meta['property']]
+    props = args or meta.get('check_with') or [meta['property']]
     st = sh('git -C /repo status --porcelain').stdout.strip()
     if st:
         print('refusing: /repo is not clean:\n' + st)
@@ -35,9 +37,9 @@ def main():
     try:
         for prop in props:
             t0 = time.time()
-            r = sh(f'cd {HERE} && ./check {prop} quick', timeout=7200)
+            r = sh(f'cd {HERE} && ./check {prop} {tier}', timeout=4 * 3600)
             lines = [l for l in r.stdout.split('\n') if l.startswith(('VIOLATION', 'UNDECIDED', 'OK', 'KNOWN-FINDING'))]
-            out[prop] = dict(exit=r.returncode, lines=lines, wall_s=round(time.time() - t0, 1))
+            out[prop] = dict(exit=r.returncode, tier=tier, lines=lines, wall_s=round(time.time() - t0, 1))
             print(prop, r.returncode, *lines, sep='\n   ')
             if r.returncode == 1:
                 for l in lines:
@@ -52,8 +54,9 @@ def main():
                             pass
     finally:
         sh('git -C /repo checkout -- . && git -C /repo clean -fdq -e target')
-    meta['checks'] = out
-    meta['detected'] = any(v['exit'] == 1 for v in out.values())
+    key = 'checks' if tier == 'quick' else 'checks_thorough'
+    meta[key] = out
+    meta['detected'] = any(v['exit'] == 1 for v in (meta.get('checks') or {}).values()) or any(v['exit'] == 1 for v in (meta.get('checks_thorough') or {}).values())
     json.dump(meta, open(os.path.join(d, 'meta.json'), 'w'), indent=1)
     return 0
 
